@@ -298,6 +298,16 @@ def check(ctx):
                     src = f.describe_origin(f.origin(f.call_at(max(heads, key=lambda h: len(f.dom[h]))).args[0]), deep=4)
                     if "StructInfo.fields" in src and not re.search(r"\b(take|skip|filter\w*|step_by)\(", src):
                         okf = True
+        if not okf:
+            # the same through an accessor that yields every field's type text (`for t in struct_info.field_rust_types()`): the loop's element
+            # comes from FieldInfo.rust_type of StructInfo.fields and no adapter on the way drops elements
+            from c07 import model_fields_in_slice
+            for c in et:
+                via = model_fields_in_slice(P, f, c.args[1])
+                fed = {x.split("::")[-1] for x in f.feeding_calls(c.args[1], depth=8)}
+                if {"FieldInfo.rust_type", "StructInfo.fields"} <= via and not (fed & {"take", "skip", "filter", "filter_map", "step_by", "take_while", "skip_while", "nth", "last", "first"}) \
+                        and f.enclosing_loop_heads(c.bb):
+                    okf = True
         check_harvest_reaches_record(P, r4)
         if okf:
             r4.ok("deps harvested from every field's rust_type")
